@@ -20,6 +20,9 @@ GROUPS = {
     "unique": (["k", "a", "t", "v"], ["k", "a", "t", "v"], []),
     # allocation-watermark boundary: the last acknowledged add sits exactly on the durable watermark
     "wm": (["a", "t"], ["a", "t"], []),
+    # a multi-field (virtual) B-tree index c = (a, b) next to the unique key and a member field's own index;
+    # the sequential driver sends PARTIAL updates (only the fields that change), so updates touch subsets of c
+    "multi": (["k", "c", "a"], ["k", "c", "a", "t"], []),
 }
 NVALS = 6
 # values whose key k collides: (1,3) share k=1, (2,6) share k=2
@@ -114,6 +117,13 @@ def fixed_workloads(group):
         return [[{"op": "add", "val": 1}, {"op": "add", "val": 3}, {"op": "add", "val": 2}, {"op": "update", "id": 3, "val": 3},
                  {"op": "flush"}, {"op": "remove", "id": 1}, {"op": "add", "val": 3}, {"op": "update", "id": 3, "val": 1},
                  {"op": "update", "id": 4, "val": 6}, {"op": "add", "val": 6}, {"op": "flush"}]]
+    if group == "multi":
+        # updates that change only ONE member field of c = (a, b): 1->2 and 2->5 keep a = 7, 3->6 keeps a = null;
+        # 1->4 changes both; then removal, flush, clean reopen (backfill of t), update after the reopen
+        return [[{"op": "add", "val": 1}, {"op": "add", "val": 3}, {"op": "update", "id": 1, "val": 2},
+                 {"op": "update", "id": 2, "val": 6}, {"op": "flush"}, {"op": "update", "id": 1, "val": 5},
+                 {"op": "add", "val": 1}, {"op": "update", "id": 3, "val": 4}, {"op": "remove", "id": 2},
+                 {"op": "flush"}, {"op": "reopen"}, {"op": "update", "id": 1, "val": 2}, {"op": "flush"}]]
     return []
 
 
